@@ -1075,6 +1075,7 @@ class SMTPClient(basic.LineReceiver, policies.TimeoutMixin):
             self.sendLine(b"RCPT TO:" + quoteaddr(self.lastAddress))
 
     def smtpState_data(self, code, resp):
+        self._atLineStart = True
         s = basic.FileSender()
         d = s.beginFileTransfer(self.getMailData(), self.transport, self.transformChunk)
 
@@ -1100,6 +1101,8 @@ class SMTPClient(basic.LineReceiver, policies.TimeoutMixin):
     ##
     ## Helpers for FileSender
     ##
+    _atLineStart = True
+
     def transformChunk(self, chunk):
         """
         Perform the necessary local to network newline conversion and escape
@@ -1109,6 +1112,13 @@ class SMTPClient(basic.LineReceiver, policies.TimeoutMixin):
         being made sending the message body, the client will not time out.
         """
         self.resetTimeout()
+        if not chunk:
+            return chunk
+        # A period which starts the message, or which follows a newline that
+        # ended the previous chunk, starts a line just like one within a chunk.
+        if self._atLineStart and chunk.startswith(b"."):
+            chunk = b"." + chunk
+        self._atLineStart = chunk.endswith(b"\n")
         return chunk.replace(b"\n", b"\r\n").replace(b"\r\n.", b"\r\n..")
 
     def finishedFileTransfer(self, lastsent):
